@@ -7,6 +7,8 @@ import json, os, re, shutil, subprocess, sys
 sid, prop, raw, demo, needs, summary = sys.argv[1:7]
 checks = sys.argv[7:]
 wt = "/tmp/keep_" + sid
+for _v in ("OMP_NUM_THREADS", "OPENBLAS_NUM_THREADS", "MKL_NUM_THREADS"):
+    os.environ.setdefault(_v, "1")
 def sh(cmd, **kw):
     return subprocess.run(cmd, shell=True, capture_output=True, text=True, **kw)
 sh("git -C /repo worktree remove --force %s" % wt)
